@@ -186,12 +186,32 @@ type genOpts struct {
 	depth     int
 	noMaps    bool
 	unknownOK bool // may put unrecognized bytes into capturing messages
+	// narrow: deep values (nesting far beyond 3) with little content per level: scalars mostly default, short lists, and a
+	// budget of messages for the whole value, so that depth 10-30 with branching stays small
+	narrow bool
+	budget *int
+}
+
+func (g genOpts) down() genOpts {
+	g.depth--
+	return g
+}
+
+func (g genOpts) spend() bool {
+	if g.budget == nil {
+		return true
+	}
+	if *g.budget <= 0 {
+		return false
+	}
+	*g.budget--
+	return true
 }
 
 func (u *Universe) genVal(r *rng, sh *Shape, g genOpts) *Val {
 	switch sh.T {
 	case 'i', 'b':
-		if r.intn(5) == 0 {
+		if r.intn(5) == 0 || (g.narrow && r.intn(6) != 0) {
 			return zeroVal(sh)
 		}
 		return genScalar(r, sh.K)
@@ -234,6 +254,9 @@ func (u *Universe) genVal(r *rng, sh *Shape, g genOpts) *Val {
 			}
 		default:
 			n = 2 + r.intn(4)
+		}
+		if g.narrow && n > 2 {
+			n = r.intn(3)
 		}
 		out := &Val{T: 'l'}
 		for i := 0; i < n; i++ {
@@ -285,18 +308,18 @@ func (u *Universe) genVal(r *rng, sh *Shape, g genOpts) *Val {
 		out.sortMaps()
 		return out
 	case 'm':
-		if g.depth <= 0 || r.intn(4) == 0 {
+		if g.depth <= 0 || (!g.narrow && r.intn(4) == 0) || !g.spend() {
 			if r.bool() && g.depth > -3 {
 				return zeroMsg(sh.TI, 'm') // present but empty
 			}
 			return vNilMsg()
 		}
-		return u.genMsg(r, sh.TI, 'm', genOpts{depth: g.depth - 1, noMaps: g.noMaps, unknownOK: g.unknownOK})
+		return u.genMsg(r, sh.TI, 'm', g.down())
 	case 'e':
-		if g.depth <= 0 || r.intn(4) == 0 {
+		if g.depth <= 0 || (!g.narrow && r.intn(4) == 0) || !g.spend() {
 			return zeroMsg(sh.TI, 'e')
 		}
-		return u.genMsg(r, sh.TI, 'e', genOpts{depth: g.depth - 1, noMaps: g.noMaps, unknownOK: g.unknownOK})
+		return u.genMsg(r, sh.TI, 'e', g.down())
 	}
 	return nil
 }
@@ -330,10 +353,10 @@ func (u *Universe) genMsg(r *rng, ti *TypeInfo, t byte, g genOpts) *Val {
 			}
 			if sh.T == 'm' {
 				// wrapper must hold a non-nil message (C01 domain)
-				if g.depth <= 0 || r.intn(3) == 0 {
+				if g.depth <= 0 || (!g.narrow && r.intn(3) == 0) || !g.spend() {
 					out.L = append(out.L, zeroMsg(sh.TI, 'm'))
 				} else {
-					out.L = append(out.L, u.genMsg(r, sh.TI, 'm', genOpts{depth: g.depth - 1, noMaps: g.noMaps, unknownOK: g.unknownOK}))
+					out.L = append(out.L, u.genMsg(r, sh.TI, 'm', g.down()))
 				}
 				continue
 			}
@@ -445,6 +468,12 @@ func (u *Universe) genMsgCapped(r *rng, ti *TypeInfo, g genOpts) *Val {
 			limit = n
 		}
 	}
+	// one value in twelve of a type that can nest (recursive types, chains of message types) is deep and narrow: nesting depth
+	// 9 to 24 with at most 60 messages in all (a decoder or encoder that treats the first few levels specially must still be right)
+	if u.nests(ti) && r.intn(12) == 0 {
+		budget := 60
+		return u.genMsg(r, ti, 'm', genOpts{depth: 9 + r.intn(16), unknownOK: g.unknownOK, narrow: true, budget: &budget})
+	}
 	for {
 		v := u.genMsg(r, ti, 'm', g)
 		if g.depth <= 0 || len(v.String()) <= limit {
@@ -452,4 +481,49 @@ func (u *Universe) genMsgCapped(r *rng, ti *TypeInfo, g genOpts) *Val {
 		}
 		g.depth--
 	}
+}
+
+// nests: the type has a message-typed field (so values can be nested deeper than the default budget of 3 shows)
+func (u *Universe) nests(ti *TypeInfo) bool {
+	for _, f := range ti.S.Msgs[ti.MI].Fields {
+		if f.Kind == KMsg && !f.IsMap && f.Custom == CNone && f.Msg >= 0 {
+			return true
+		}
+	}
+	return false
+}
+
+// hugeValue: the zero message of ti with its first plain string/bytes field set to n bytes; when ti has a pointer sub-message
+// with such a field, that one is filled instead (the length prefix of the sub-message then needs four bytes as well). nil if
+// the type has no such field.
+func (u *Universe) hugeValue(ti *TypeInfo, n int, nested bool) *Val {
+	fill := func(t *TypeInfo) *Val {
+		v := zeroMsg(t, 'm')
+		for i, sh := range t.Shapes {
+			f := &t.S.Msgs[t.MI].Fields[i]
+			if sh != nil && sh.T == 'b' && f.Oneof < 0 && f.Label == LSingular {
+				b := make([]byte, n)
+				for j := range b {
+					b[j] = byte('a' + j%26)
+				}
+				v.L[i] = vBytes(b)
+				return v
+			}
+		}
+		return nil
+	}
+	if !nested {
+		return fill(ti)
+	}
+	for i, sh := range ti.Shapes {
+		f := &ti.S.Msgs[ti.MI].Fields[i]
+		if sh != nil && sh.T == 'm' && f.Oneof < 0 && sh.TI != nil && sh.TI != ti {
+			if sub := fill(sh.TI); sub != nil {
+				v := zeroMsg(ti, 'm')
+				v.L[i] = sub
+				return v
+			}
+		}
+	}
+	return nil
 }
